@@ -63,14 +63,29 @@ def ic_post(ctx, st, result):
 
 
 def ic_raises(ctx, st, exc):
+    d = st.data
     ctx.oblige("raises", f"only-ValueError(got {exc.cls}@{exc.origin})", exc.cls == "ValueError")
+    # a link is refused only for one of the stated reasons
+    reasons = [d["apply_on"] not in ("parse", "instantiate"), (not d["has_fn"]) and len(d["sources"]) > 1]
+    if d["apply_on"] == "parse":
+        tg = [a.attrs["target"][0] for a in d["existing"]]
+        parse_src = [a.attrs["source"][0][0] for a in d["existing"] if a.attrs["apply_on"] == "parse"]
+        reasons += [d["target"] == t for t in tg] + [s == t for s in d["sources"] for t in tg] + [d["target"] == s for s in parse_src]
+    concrete = [r for r in reasons if isinstance(r, bool)]
+    symbolic = [r for r in reasons if not isinstance(r, bool)]
+    ctx.oblige("raises", "refused=>bad-apply_on,or-several-sources-without-function,or-a-chain/double-target", True if any(concrete) else (z3.Or(*symbolic) if symbolic else False))
 
 
 # ------------------------------------------------------------------------------------- apply_parsing_links
 def ap_setup(ctx):
     skip = ctx.choose(3, "skip-mode")  # 0: normal, 1: apply_config_skip set, 2: print_config requested
+    sub_mode = ["no-subcommand", "selected-with-section", "selected-without-section"][ctx.choose(3, "subcommand")]
     n = ctx.choose(3, "n-parse-links")
     store = {}
+    sub_section = Rec("Namespace", attrs={"tag": "section-of-fit"})
+    subparser = Rec("ArgumentParser", attrs={"tag": "subparser-of-fit"})
+    if sub_mode == "selected-with-section":
+        store["fit"] = sub_section
     actions = []
     for i in range(n):
         has_fn = ctx.choose(2, f"link[{i}].compute_fn") == 1
@@ -104,14 +119,15 @@ def ap_setup(ctx):
     calls = {
         "apply_config_skip.get": lambda c, a, k: skip == 1,
         "_ActionPrintConfig.is_print_config_requested": lambda c, a, k: skip == 2,
-        "_ActionSubCommands.get_subcommand": lambda c, a, k: (None, None),
+        "_ActionSubCommands.get_subcommand": lambda c, a, k: (None, None) if sub_mode == "no-subcommand" else ("fit", subparser),
+        "ActionLink.apply_parsing_links": lambda c, a, k: c.event("recurse", a[0], a[1]),
         "get_link_actions": lambda c, a, k: list(actions) if a[1] == "parse" else [],
         "ActionTypeHint.is_subclass_typehint": lambda c, a, k: False,
         "ActionTypeHint.is_mapping_typehint": lambda c, a, k: False,
         "get_signature_parameters": lambda c, a, k: [],
         "ActionLink.set_target_value": set_target_value,
     }
-    return Setup(env={"parser": parser, "cfg": cfg}, calls=calls, consts={"Namespace": ClassRef("Namespace")}, data=dict(skip=skip, actions=actions, store=dict(store), live=store))
+    return Setup(env={"parser": parser, "cfg": cfg}, calls=calls, consts={"Namespace": ClassRef("Namespace")}, data=dict(skip=skip, actions=actions, store=dict(store), live=store, sub_mode=sub_mode, sub_section=sub_section, subparser=subparser))
 
 
 def ap_post(ctx, st, result):
@@ -121,6 +137,12 @@ def ap_post(ctx, st, result):
         ctx.oblige("post", "links-not-applied-while-a-config-is-being-loaded-or-printed", not sets)
         return
     ctx.oblige("post", "every-parse-link-applied-exactly-once-in-declaration-order", [e[1] for e in sets] == d["actions"])
+    rec = [e for e in ctx.events if e[0] == "recurse"]
+    if d["sub_mode"] == "selected-with-section":
+        ctx.oblige("post", "links-of-the-selected-subcommand-are-applied-on-its-own-section-with-its-own-parser", len(rec) == 1 and rec[0][1] is d["subparser"] and rec[0][2] is d["sub_section"])
+        ctx.oblige("post", "subcommand-links-first,then-this-level's", [e[0] for e in ctx.events if e[0] in ("recurse", "set-target")][:1] == ["recurse"])
+    else:
+        ctx.oblige("post", "no-recursion-without-a-selected-subcommand-section", not rec)
     for e, a in zip(sets, d["actions"]):
         i = d["actions"].index(a)
         if a.attrs["compute_fn"] is None:
